@@ -2,7 +2,7 @@
    prefix safety under arbitrary loss / reordering / duplication, loud
    aborts, re-ACK of unaccepted segments, acknowledged => delivered. *)
 From TV.Lib Require Import Base.
-From TV.NetTcp Require Import Gen Model Facts.
+From TV.NetTcp Require Import Gen Model Facts C16_proofs.
 Open Scope N_scope.
 
 Definition prefix {A} (r w : list A) : Prop := exists rest, w = r ++ rest.
@@ -749,3 +749,857 @@ Proof.
   destruct ST as [ST| ->]; [|reflexivity]. destruct (t_state t); try discriminate; reflexivity.
 Qed.
 
+
+(* ------------------------------------------------------------------ *)
+(* Dead stays dead: no function ever clears `reset` / `timed_out`.      *)
+
+Definition dead (t : tcb) : Prop := reset t = true \/ timed_out t = true.
+
+Lemma dead_not_alive t : dead t <-> ~ alive t.
+Proof. unfold dead, alive. destruct (reset t), (timed_out t); intuition discriminate. Qed.
+
+Lemma flags_tcb_on_conn cap t s :
+  reset (fst (tcb_on_conn cap t s)) = reset t /\ timed_out (fst (tcb_on_conn cap t s)) = timed_out t.
+Proof.
+  unfold tcb_on_conn, tcb_on_seg, tcb_fin, tcb_data, tcb_ack.
+  destruct (t_state t); cbn;
+    repeat (match goal with |- context [if ?b then _ else _] => destruct b; cbn end); split; reflexivity.
+Qed.
+
+Lemma flags_tcb_send cap t bs :
+  reset (fst (tcb_send cap t bs)) = reset t /\ timed_out (fst (tcb_send cap t bs)) = timed_out t.
+Proof.
+  unfold tcb_send. destruct (abort_error t); [split; reflexivity|]. destruct (wr_closed t); [split; reflexivity|].
+  destruct (t_state t); cbn; try (split; reflexivity); (destruct (_ =? 0); cbn; split; reflexivity).
+Qed.
+
+Lemma flags_tcb_recv cap t n :
+  reset (fst (fst (tcb_recv cap t n))) = reset t /\ timed_out (fst (fst (tcb_recv cap t n))) = timed_out t.
+Proof.
+  unfold tcb_recv. destruct (abort_error t); [split; reflexivity|].
+  destruct (is_nil _); [destruct (peer_fin t); [split; reflexivity|]; destruct (negb _); split; reflexivity|].
+  split; reflexivity.
+Qed.
+
+Lemma flags_tcb_shutdown t :
+  reset (fst (tcb_shutdown t)) = reset t /\ timed_out (fst (tcb_shutdown t)) = timed_out t.
+Proof.
+  unfold tcb_shutdown. destruct (abort_error t); [split; reflexivity|]. destruct (wr_closed t); split; reflexivity.
+Qed.
+
+Lemma flags_retx th mx t :
+  reset (fst (tcb_retx_tick th mx t)) = reset t /\ timed_out (fst (tcb_retx_tick th mx t)) = timed_out t.
+Proof.
+  unfold tcb_retx_tick. destruct (retx_candidate t); [|split; reflexivity].
+  destruct (_ <? _); [split; reflexivity|]. destruct (_ <=? _); [split; reflexivity|].
+  destruct (handshake_state _); split; reflexivity.
+Qed.
+
+Lemma flags_seg_loop fuel mss rc l t :
+  reset (fst (seg_loop fuel mss rc l t)) = reset t /\ timed_out (fst (seg_loop fuel mss rc l t)) = timed_out t.
+Proof.
+  revert t. induction fuel as [|f IH]; intro t; cbn [seg_loop]; [split; reflexivity|].
+  destruct (seg_step mss rc l t) as [[t' p]|] eqn:E; [|split; reflexivity].
+  assert (reset t' = reset t /\ timed_out t' = timed_out t) as [E1 E2].
+  { unfold seg_step in E. destruct (_ && _); [inversion E; split; reflexivity|].
+    destruct (_ && _); [inversion E; split; reflexivity|discriminate]. }
+  specialize (IH t'). destruct (seg_loop f mss rc l t') as [t'' ps]. cbn [fst] in *. destruct IH; split; congruence.
+Qed.
+
+Lemma dead_abort tm t : dead (tcb_abort tm t).
+Proof. unfold dead, tcb_abort; cbn. destruct tm; auto. Qed.
+
+Lemma tcb_of_set_side c s t w r x : tcb_of (set_side c s t w r x) s = t.
+Proof. destruct s; reflexivity. Qed.
+Lemma tcb_of_set_side_other c s t w r x : tcb_of (set_side c s t w r x) (other s) = tcb_of c (other s).
+Proof. destruct s; reflexivity. Qed.
+
+Lemma side_cases (s d : side) : d = s \/ d = other s.
+Proof. destruct s, d; auto. Qed.
+
+Lemma cstep_dead k c e s : dead (tcb_of c s) -> dead (tcb_of (cstep k c e) s).
+Proof.
+  intros D.
+  assert (forall t', reset t' = reset (tcb_of c s) /\ timed_out t' = timed_out (tcb_of c s) -> dead t') as KEEP.
+  { intros t' [E1 E2]. unfold dead in *. rewrite E1, E2. exact D. }
+  destruct e; cbn [cstep].
+  - destruct (side_cases s0 s) as [->| ->].
+    + pose proof (flags_tcb_send (send_cap k) (tcb_of c s0) bs) as F.
+      destruct (tcb_send _ _ _) as [t' r]. rewrite tcb_of_set_side. apply KEEP, F.
+    + destruct (tcb_send _ _ _) as [t' r]. destruct s0; exact D.
+  - destruct (side_cases s0 s) as [->| ->].
+    + pose proof (flags_tcb_recv (recv_cap k) (tcb_of c s0) n) as F.
+      destruct (tcb_recv _ _ _) as [[t' r] u]. rewrite tcb_of_set_side. apply KEEP, F.
+    + destruct (tcb_recv _ _ _) as [[t' r] u]. destruct s0; exact D.
+  - destruct (side_cases s0 s) as [->| ->].
+    + pose proof (flags_tcb_shutdown (tcb_of c s0)) as F.
+      destruct (tcb_shutdown _) as [t' r]. rewrite tcb_of_set_side. apply KEEP, F.
+    + destruct (tcb_shutdown _) as [t' r]. destruct s0; exact D.
+  - destruct (transmittable _); [|exact D]. destruct (side_cases s0 s) as [->| ->].
+    + pose proof (flags_seg_loop fuel mss (recv_cap k) nowhere (tcb_of c s0)) as F.
+      destruct (seg_loop _ _ _ _ _) as [t' ps]. rewrite tcb_of_set_side. apply KEEP, F.
+    + destruct (seg_loop _ _ _ _ _) as [t' ps]. destruct s0; exact D.
+  - destruct (side_cases s0 s) as [->| ->].
+    + pose proof (flags_retx (retx_threshold k) (retx_max k) (tcb_of c s0)) as F.
+      destruct (tcb_retx_tick _ _ _) as [t' a]. rewrite tcb_of_set_side.
+      destruct a; try (apply KEEP, F). apply dead_abort.
+    + destruct (tcb_retx_tick _ _ _) as [t' a]. destruct s0; exact D.
+  - destruct (nth_error _ _) as [[d g]|]; [|exact D]. destruct (side_cases d s) as [->| ->].
+    + destruct (f_rst g); [rewrite tcb_of_set_side; apply dead_abort|].
+      pose proof (flags_tcb_on_conn (recv_cap k) (tcb_of c d) g) as F.
+      destruct (tcb_on_conn _ _ _) as [t' o]. rewrite tcb_of_set_side. apply KEEP, F.
+    + destruct (f_rst g); [destruct d; exact D|]. destruct (tcb_on_conn _ _ _) as [t' o]. destruct d; exact D.
+  - destruct s; exact D.
+  - destruct (_ && _); [destruct s; exact D|exact D].
+Qed.
+
+Lemma crun_dead k es c s : dead (tcb_of c s) -> dead (tcb_of (crun k c es) s).
+Proof.
+  unfold crun. revert c. induction es as [|e es IH]; intros c D; cbn [fold_left]; [exact D|].
+  apply IH, cstep_dead, D.
+Qed.
+
+(* c06_abort_is_loud, connection level: from the tick that exhausts the
+   retransmit budget on, in every later state, every read / write / peek /
+   shutdown of that side fails and changes nothing. *)
+Lemma abort_is_loud_lemma k c s es :
+  snd (tcb_retx_tick (retx_threshold k) (retx_max k) (tcb_of c s)) = RAbort ->
+  let c1 := cstep k c (CRetx s) in
+  timed_out (tcb_of c1 s) = true /\ send_buf (tcb_of c1 s) = [] /\ recv_buf (tcb_of c1 s) = [] /\
+  let t := tcb_of (crun k c1 es) s in
+  (forall bs, is_err (snd (tcb_send (send_cap k) t bs))) /\
+  (forall n, is_err (snd (fst (tcb_recv (recv_cap k) t n)))) /\
+  (forall n, is_err (tcb_peek t n)) /\ is_err (snd (tcb_shutdown t)).
+Proof.
+  intros RA. cbn [cstep]. destruct (tcb_retx_tick _ _ _) as [t' a]. cbn [snd] in RA. subst a.
+  rewrite tcb_of_set_side. cbn. repeat split.
+  all: set (c1 := set_side c s (tcb_abort true t') (written c s) (readb c s) []).
+  all: assert (dead (tcb_of (crun k c1 es) s)) as D by (apply crun_dead; subst c1; rewrite tcb_of_set_side; apply dead_abort).
+  all: apply dead_not_alive in D; destruct (aborted_ops_fail _ D) as (F1 & F2 & F3 & F4).
+  - intros bs. apply F1. - intros n. apply F2. - intros n. apply F3. - apply F4.
+Qed.
+
+(* ------------------------------------------------------------------ *)
+(* Acknowledged implies delivered (no silent loss): in a run without
+   injected segments, what a sender has had acknowledged was received by
+   its peer.                                                            *)
+
+Record AckInv (X Y : tcb) (toX : side) (wire : list (side * seg)) : Prop := {
+  ai_una : snd_una X <= rcv_nxt Y;
+  ai_wire : forall g, In (toX, g) wire -> f_ack g = true -> ackn g <= rcv_nxt Y }.
+
+Definition no_inject (e : cev) : Prop := match e with CInject _ _ => False | _ => True end.
+
+Record AInv (c : conn) : Prop := {
+  a_ab : AckInv (ta c) (tb c) SA (cwire c);
+  a_ba : AckInv (tb c) (ta c) SB (cwire c) }.
+
+Lemma rcv_nxt_tcb_ack t s : rcv_nxt (tcb_ack t s) = rcv_nxt t.
+Proof. unfold tcb_ack. destruct (f_ack s); [|reflexivity]. destruct (_ && _); reflexivity. Qed.
+
+Lemma rcv_nxt_mono_on_seg cap t s : rcv_nxt t <= rcv_nxt (fst (tcb_on_seg cap t s)).
+Proof.
+  unfold tcb_on_seg. pose proof (rcv_nxt_tcb_ack t s) as E0.
+  assert (rcv_nxt (tcb_ack t s) <= rcv_nxt (fst (tcb_data cap (tcb_ack t s) s))) as E1.
+  { unfold tcb_data. destruct (_ && _); [|cbn [fst]; lia]. destruct (0 <? _); cbn; lia. }
+  destruct (tcb_data cap (tcb_ack t s) s) as [t2 a1]. cbn [fst] in E1.
+  assert (rcv_nxt t2 <= rcv_nxt (fst (tcb_fin t2 s))) as E2.
+  { unfold tcb_fin. destruct (_ && _); [|cbn [fst]; lia]. destruct (_ =? _); cbn; lia. }
+  destruct (tcb_fin t2 s) as [t3 a2]. cbn [fst] in *. lia.
+Qed.
+
+Lemma rcv_nxt_mono_on_conn cap t s : t_state t <> SynSent -> rcv_nxt t <= rcv_nxt (fst (tcb_on_conn cap t s)).
+Proof.
+  intros NS. unfold tcb_on_conn. pose proof (rcv_nxt_mono_on_seg cap t s) as M.
+  destruct (tcb_on_seg cap t s) as [t' a]. cbn [fst] in M.
+  destruct (t_state t); try exact M; try congruence; cbn; try lia.
+  destruct (_ && _); [|cbn; lia]. destruct (negb _); cbn; lia.
+Qed.
+
+Lemma snd_una_on_seg cap t s :
+  snd_una (fst (tcb_on_seg cap t s)) = snd_una t \/
+  (f_ack s = true /\ snd_una (fst (tcb_on_seg cap t s)) = ackn s).
+Proof.
+  unfold tcb_on_seg.
+  assert (snd_una (tcb_ack t s) = snd_una t \/ (f_ack s = true /\ snd_una (tcb_ack t s) = ackn s)) as E0.
+  { unfold tcb_ack. destruct (f_ack s); [|auto]. destruct (_ && _); cbn; auto. }
+  assert (snd_una (fst (tcb_data cap (tcb_ack t s) s)) = snd_una (tcb_ack t s)) as E1.
+  { unfold tcb_data. destruct (_ && _); [|reflexivity]. destruct (0 <? _); reflexivity. }
+  destruct (tcb_data cap (tcb_ack t s) s) as [t2 a1]. cbn [fst] in E1.
+  assert (snd_una (fst (tcb_fin t2 s)) = snd_una t2) as E2.
+  { unfold tcb_fin. destruct (_ && _); [|reflexivity]. destruct (_ =? _); reflexivity. }
+  destruct (tcb_fin t2 s) as [t3 a2]. cbn [fst] in *. rewrite E2, E1. exact E0.
+Qed.
+
+Lemma snd_una_on_conn cap t s :
+  snd_una (fst (tcb_on_conn cap t s)) = snd_una t \/
+  (f_ack s = true /\ snd_una (fst (tcb_on_conn cap t s)) = ackn s).
+Proof.
+  unfold tcb_on_conn. pose proof (snd_una_on_seg cap t s) as M.
+  destruct (tcb_on_seg cap t s) as [t' a]. cbn [fst] in M.
+  destruct (t_state t); try exact M; cbn; auto.
+  - destruct (_ && _); cbn; auto.
+  - destruct (_ && _); [|cbn; auto]. destruct (negb _); cbn; auto.
+Qed.
+
+Lemma ur_send cap t bs : snd_una (fst (tcb_send cap t bs)) = snd_una t /\ rcv_nxt (fst (tcb_send cap t bs)) = rcv_nxt t.
+Proof.
+  unfold tcb_send. destruct (abort_error t); [split; reflexivity|]. destruct (wr_closed t); [split; reflexivity|].
+  destruct (t_state t); cbn; try (split; reflexivity); (destruct (_ =? 0); cbn; split; reflexivity).
+Qed.
+Lemma ur_recv cap t n : snd_una (fst (fst (tcb_recv cap t n))) = snd_una t /\ rcv_nxt (fst (fst (tcb_recv cap t n))) = rcv_nxt t.
+Proof.
+  unfold tcb_recv. destruct (abort_error t); [split; reflexivity|].
+  destruct (is_nil _); [destruct (peer_fin t); [split; reflexivity|]; destruct (negb _); split; reflexivity|].
+  split; reflexivity.
+Qed.
+Lemma ur_shutdown t : snd_una (fst (tcb_shutdown t)) = snd_una t /\ rcv_nxt (fst (tcb_shutdown t)) = rcv_nxt t.
+Proof. unfold tcb_shutdown. destruct (abort_error t); [split; reflexivity|]. destruct (wr_closed t); split; reflexivity. Qed.
+Lemma ur_retx th mx t : snd_una (fst (tcb_retx_tick th mx t)) = snd_una t /\ rcv_nxt (fst (tcb_retx_tick th mx t)) = rcv_nxt t.
+Proof.
+  unfold tcb_retx_tick. destruct (retx_candidate t); [|split; reflexivity].
+  destruct (_ <? _); [split; reflexivity|]. destruct (_ <=? _); [split; reflexivity|].
+  destruct (handshake_state _); split; reflexivity.
+Qed.
+
+Lemma seg_loop_acks fuel mss rc l t :
+  let r := seg_loop fuel mss rc l t in
+  snd_una (fst r) = snd_una t /\ rcv_nxt (fst r) = rcv_nxt t /\
+  (forall d d' g, In (d', g) (pkt_segs d (snd r)) -> ackn g = rcv_nxt t).
+Proof.
+  revert t. induction fuel as [|f IH]; intro t; cbn [seg_loop].
+  { cbn. repeat split. intros d d' g []. }
+  destruct (seg_step mss rc l t) as [[t' p]|] eqn:E.
+  2:{ cbn. repeat split. intros d d' g []. }
+  assert (snd_una t' = snd_una t /\ rcv_nxt t' = rcv_nxt t /\ (forall g, body p = Tcp g -> ackn g = rcv_nxt t)) as (E1 & E2 & E3).
+  { unfold seg_step in E. destruct (_ && _).
+    - inversion E; subst. repeat split. intros g Hg. cbn in Hg. inversion Hg; reflexivity.
+    - destruct (_ && _); [|discriminate]. inversion E; subst. repeat split. intros g Hg. cbn in Hg. inversion Hg; reflexivity. }
+  specialize (IH t'). destruct (seg_loop f mss rc l t') as [t'' ps]. cbn [fst snd] in *.
+  destruct IH as (I1 & I2 & I3). split; [congruence|]. split; [congruence|].
+  intros d d' g Hin. cbn in Hin. apply in_app_or in Hin as [Hin|Hin].
+  - destruct (body p) as [|g0] eqn:B; [contradiction|]. destruct Hin as [Hin|[]]. inversion Hin; subst. apply E3. reflexivity.
+  - rewrite <- E2. eapply I3, Hin.
+Qed.
+
+Lemma AckInv_wire_add X Y toX wire extra :
+  AckInv X Y toX wire -> (forall g, In (toX, g) extra -> f_ack g = true -> ackn g <= rcv_nxt Y) ->
+  AckInv X Y toX (wire ++ extra).
+Proof.
+  intros [A1 A2] H. split; [exact A1|]. intros g Hin. apply in_app_or in Hin as [Hin|Hin]; auto.
+Qed.
+
+Lemma AckInv_ext X Y X' Y' toX wire :
+  AckInv X Y toX wire -> snd_una X' = snd_una X -> rcv_nxt Y <= rcv_nxt Y' -> AckInv X' Y' toX wire.
+Proof.
+  intros [A1 A2] E1 E2. split; [lia|]. intros g Hin Ha. specialize (A2 g Hin Ha). lia.
+Qed.
+
+Lemma pkt_segs_ack_of d rc l r t d' g : In (d', g) (pkt_segs d [ack_of rc l r t]) -> d' = d /\ ackn g = rcv_nxt t.
+Proof. cbn. intros [H|[]]. inversion H; subst. split; reflexivity. Qed.
+Lemma pkt_segs_mk_ack d l r a b w d' g : In (d', g) (pkt_segs d [mk_ack l r a b w]) -> d' = d /\ ackn g = b.
+Proof. cbn. intros [H|[]]. inversion H; subst. split; reflexivity. Qed.
+
+(* AckInv seen from the acting side s: (X = s, Y = other s) and (X = other s, Y = s). *)
+Lemma AInv_view c s :
+  AInv c <-> AckInv (tcb_of c s) (tcb_of c (other s)) s (cwire c) /\ AckInv (tcb_of c (other s)) (tcb_of c s) (other s) (cwire c).
+Proof. destruct s; cbn; split; [intros [A B]; split; assumption|intros [A B]; split; assumption|intros [A B]; split; assumption|intros [A B]; split; assumption]. Qed.
+
+Lemma AInv_set_side c s T' W' R' extra :
+  AckInv T' (tcb_of c (other s)) s (cwire c ++ extra) -> AckInv (tcb_of c (other s)) T' (other s) (cwire c ++ extra) ->
+  AInv (set_side c s T' W' R' extra).
+Proof. intros H1 H2. apply (AInv_view _ s). destruct s; cbn in *; split; assumption. Qed.
+
+Lemma cstep_ainv k ba bb c e : CInv ba bb c -> AInv c -> no_inject e -> AInv (cstep k c e).
+Proof.
+  intros CI H NI. destruct e; cbn [cstep]; try contradiction.
+  - (* CWrite *)
+    apply (AInv_view c s) in H as [H1 H2]. destruct (ur_send (send_cap k) (tcb_of c s) bs) as [U R].
+    destruct (tcb_send _ _ _) as [t' r]. cbn [fst] in *. apply AInv_set_side; rewrite app_nil_r.
+    + eapply AckInv_ext; [exact H1|assumption|lia]. + eapply AckInv_ext; [exact H2|reflexivity|lia].
+  - (* CRead *)
+    apply (AInv_view c s) in H as [H1 H2]. destruct (ur_recv (recv_cap k) (tcb_of c s) n) as [U R].
+    destruct (tcb_recv _ _ _) as [[t' r] u]. cbn [fst] in *. apply AInv_set_side.
+    + apply AckInv_wire_add; [eapply AckInv_ext; [exact H1|assumption|lia]|].
+      intros g Hin. destruct u; [|contradiction]. apply pkt_segs_ack_of in Hin as [Hd _]. exfalso. exact (other_neq _ (eq_sym Hd)).
+    + apply AckInv_wire_add; [eapply AckInv_ext; [exact H2|reflexivity|lia]|].
+      intros g Hin _. destruct u; [|contradiction]. apply pkt_segs_ack_of in Hin as [_ ->]. lia.
+  - (* CShutdown *)
+    apply (AInv_view c s) in H as [H1 H2]. destruct (ur_shutdown (tcb_of c s)) as [U R].
+    destruct (tcb_shutdown _) as [t' r]. cbn [fst] in *. apply AInv_set_side; rewrite app_nil_r.
+    + eapply AckInv_ext; [exact H1|assumption|lia]. + eapply AckInv_ext; [exact H2|reflexivity|lia].
+  - (* CSegment *)
+    destruct (transmittable _); [|exact H]. apply (AInv_view c s) in H as [H1 H2].
+    pose proof (seg_loop_acks fuel mss (recv_cap k) nowhere (tcb_of c s)) as S.
+    destruct (seg_loop _ _ _ _ _) as [t' ps]. cbn [fst snd] in S. destruct S as (U & R & P). apply AInv_set_side.
+    + apply AckInv_wire_add; [eapply AckInv_ext; [exact H1|assumption|lia]|].
+      intros g Hin. apply pkt_segs_dst in Hin. exfalso. exact (other_neq _ (eq_sym Hin)).
+    + apply AckInv_wire_add; [eapply AckInv_ext; [exact H2|reflexivity|lia]|].
+      intros g Hin _. rewrite (P _ _ _ Hin). lia.
+  - (* CRetx *)
+    apply (AInv_view c s) in H as [H1 H2]. destruct (ur_retx (retx_threshold k) (retx_max k) (tcb_of c s)) as [U R].
+    destruct (tcb_retx_tick _ _ _) as [t' a]. cbn [fst] in *. apply AInv_set_side; rewrite app_nil_r.
+    + eapply AckInv_ext; [exact H1|destruct a; cbn; assumption|lia].
+    + eapply AckInv_ext; [exact H2|reflexivity|destruct a; cbn; lia].
+  - (* CDeliver *)
+    destruct (nth_error (cwire c) i) as [[d g]|] eqn:NE; [|exact H].
+    pose proof (nth_error_In _ _ NE) as Hin.
+    apply (AInv_view c d) in H as [H1 H2].
+    destruct (f_rst g).
+    { apply AInv_set_side; rewrite app_nil_r.
+      - eapply AckInv_ext; [exact H1|reflexivity|lia]. - eapply AckInv_ext; [exact H2|reflexivity|cbn; lia]. }
+    assert (t_state (tcb_of c d) <> SynSent) as NS by (destruct CI as [_ _ _ _ _ _ N1 N2]; destruct d; assumption).
+    pose proof (rcv_nxt_mono_on_conn (recv_cap k) _ g NS) as M.
+    pose proof (snd_una_on_conn (recv_cap k) (tcb_of c d) g) as UN.
+    destruct (tcb_on_conn _ _ _) as [t' o]. cbn [fst] in *.
+    assert (AckInv t' (tcb_of c (other d)) d (cwire c)) as G1.
+    { destruct H1 as [A1 A2]. split; [|exact A2]. destruct UN as [->|[Fa ->]]; [exact A1|]. apply (A2 g Hin Fa). }
+    assert (AckInv (tcb_of c (other d)) t' (other d) (cwire c)) as G2 by (eapply AckInv_ext; [exact H2|reflexivity|exact M]).
+    apply AInv_set_side.
+    + apply AckInv_wire_add; [exact G1|]. intros g0 Hin0. exfalso.
+      destruct o; try contradiction; [apply pkt_segs_ack_of in Hin0 as [Hd _]|apply pkt_segs_mk_ack in Hin0 as [Hd _]];
+        exact (other_neq _ (eq_sym Hd)).
+    + apply AckInv_wire_add; [exact G2|]. intros g0 Hin0 _.
+      destruct o; try contradiction; [apply pkt_segs_ack_of in Hin0 as [_ ->]|apply pkt_segs_mk_ack in Hin0 as [_ ->]]; lia.
+  - (* CDrop *)
+    destruct H as [[A1 A2] [B1 B2]]. split; split; cbn; try assumption.
+    + intros g Hin. apply A2. eapply remove_nth_incl, Hin. + intros g Hin. apply B2. eapply remove_nth_incl, Hin.
+Qed.
+
+Lemma crun_ainv k ba bb es c : CInv ba bb c -> AInv c -> Forall no_inject es -> AInv (crun k c es) /\ CInv ba bb (crun k c es).
+Proof.
+  unfold crun. revert c. induction es as [|e es IH]; intros c CI AI NI; cbn [fold_left]; [split; assumption|].
+  inversion NI; subst. apply IH; [apply cstep_inv, CI|eapply cstep_ainv; eassumption|assumption].
+Qed.
+
+Lemma sync_ainv c : sync c -> (forall d g, In (d, g) (cwire c) -> f_ack g = false) -> AInv c.
+Proof.
+  intros (_ & _ & R1 & R2 & _) NA. split; split; try lia.
+  - intros g Hin Fa. rewrite (NA _ _ Hin) in Fa. discriminate.
+  - intros g Hin Fa. rewrite (NA _ _ Hin) in Fa. discriminate.
+Qed.
+
+(* ------------------------------------------------------------------ *)
+(* FIN sits exactly after the last byte: EOF never truncates.          *)
+
+Record FinInv (b : N) (X Y : tcb) (W : list N) (toY : side) (wire : list (side * seg)) : Prop := {
+  fi_wire : forall g, In (toY, g) wire -> f_fin g = true ->
+            seqn g + len (payload g) = b + len W /\ wr_closed X = true;
+  fi_peer : alive Y -> peer_fin Y = true -> rcv_nxt Y = b + len W + 1 /\ wr_closed X = true }.
+
+Lemma wc_send cap t bs : wr_closed (fst (tcb_send cap t bs)) = wr_closed t /\
+                         (wr_closed t = true -> accepted (snd (tcb_send cap t bs)) bs = []).
+Proof.
+  unfold tcb_send. destruct (abort_error t); [split; reflexivity|].
+  destruct (wr_closed t) eqn:WC; [cbn; split; [exact WC|reflexivity]|].
+  destruct (t_state t); cbn; try (split; [exact WC|discriminate]); (destruct (_ =? 0); cbn; split; try exact WC; discriminate).
+Qed.
+Lemma wc_recv cap t n : wr_closed (fst (fst (tcb_recv cap t n))) = wr_closed t.
+Proof.
+  unfold tcb_recv. destruct (abort_error t); [reflexivity|].
+  destruct (is_nil _); [destruct (peer_fin t); [reflexivity|]; destruct (negb _); reflexivity|]. reflexivity.
+Qed.
+Lemma wc_shutdown t : wr_closed t = true -> wr_closed (fst (tcb_shutdown t)) = true.
+Proof. intros H. unfold tcb_shutdown. destruct (abort_error t); [exact H|]. rewrite H. exact H. Qed.
+Lemma wc_retx th mx t : wr_closed (fst (tcb_retx_tick th mx t)) = wr_closed t.
+Proof.
+  unfold tcb_retx_tick. destruct (retx_candidate t); [|reflexivity].
+  destruct (_ <? _); [reflexivity|]. destruct (_ <=? _); [reflexivity|]. destruct (handshake_state _); reflexivity.
+Qed.
+Lemma wc_on_conn cap t s : wr_closed (fst (tcb_on_conn cap t s)) = wr_closed t.
+Proof.
+  unfold tcb_on_conn, tcb_on_seg, tcb_fin, tcb_data, tcb_ack.
+  destruct (t_state t); cbn;
+    repeat (match goal with |- context [if ?b then _ else _] => destruct b; cbn end); reflexivity.
+Qed.
+Lemma wc_seg_loop fuel mss rc l t : wr_closed (fst (seg_loop fuel mss rc l t)) = wr_closed t.
+Proof.
+  revert t. induction fuel as [|f IH]; intro t; cbn [seg_loop]; [reflexivity|].
+  destruct (seg_step mss rc l t) as [[t' p]|] eqn:E; [|reflexivity].
+  assert (wr_closed t' = wr_closed t) as E1.
+  { unfold seg_step in E. destruct (_ && _); [inversion E; reflexivity|]. destruct (_ && _); [inversion E; reflexivity|discriminate]. }
+  specialize (IH t'). destruct (seg_loop f mss rc l t') as [t'' ps]. cbn [fst] in *. congruence.
+Qed.
+
+(* peer_fin / rcv_nxt of the functions that do not receive *)
+Lemma pf_send cap t bs : peer_fin (fst (tcb_send cap t bs)) = peer_fin t.
+Proof.
+  unfold tcb_send. destruct (abort_error t); [reflexivity|]. destruct (wr_closed t); [reflexivity|].
+  destruct (t_state t); cbn; try reflexivity; (destruct (_ =? 0); reflexivity).
+Qed.
+Lemma pf_recv cap t n : peer_fin (fst (fst (tcb_recv cap t n))) = peer_fin t.
+Proof.
+  unfold tcb_recv. destruct (abort_error t); [reflexivity|].
+  destruct (is_nil _); [|reflexivity].
+  destruct (peer_fin t) eqn:P; [cbn; exact P|]. destruct (negb _); cbn; exact P.
+Qed.
+Lemma pf_shutdown t : peer_fin (fst (tcb_shutdown t)) = peer_fin t.
+Proof. unfold tcb_shutdown. destruct (abort_error t); [reflexivity|]. destruct (wr_closed t); reflexivity. Qed.
+Lemma pf_retx th mx t : peer_fin (fst (tcb_retx_tick th mx t)) = peer_fin t.
+Proof.
+  unfold tcb_retx_tick. destruct (retx_candidate t); [|reflexivity].
+  destruct (_ <? _); [reflexivity|]. destruct (_ <=? _); [reflexivity|]. destruct (handshake_state _); reflexivity.
+Qed.
+
+Lemma alive_flags t t' : reset t' = reset t /\ timed_out t' = timed_out t -> (alive t' <-> alive t).
+Proof. intros [E1 E2]. unfold alive. rewrite E1, E2. reflexivity. Qed.
+
+(* How FIN acceptance moves peer_fin / rcv_nxt *)
+Lemma on_seg_fin cap t s :
+  let t' := fst (tcb_on_seg cap t s) in
+  (peer_fin t = true -> peer_fin t' = true /\ rcv_nxt t' = rcv_nxt t) /\
+  (peer_fin t = false -> peer_fin t' = true -> f_fin s = true /\ rcv_nxt t' = seqn s + len (payload s) + 1).
+Proof.
+  unfold tcb_on_seg.
+  assert (peer_fin (tcb_ack t s) = peer_fin t /\ rcv_nxt (tcb_ack t s) = rcv_nxt t) as [E0 E0'].
+  { unfold tcb_ack. destruct (f_ack s); [|split; reflexivity]. destruct (_ && _); split; reflexivity. }
+  pose proof (eq_refl (tcb_data cap (tcb_ack t s) s)) as ED. unfold tcb_data at 2 in ED.
+  destruct (tcb_data cap (tcb_ack t s) s) as [t2 a1].
+  assert (peer_fin t2 = peer_fin t /\ (peer_fin t = true -> rcv_nxt t2 = rcv_nxt t)) as [E1 E1'].
+  { rewrite E0 in ED. destruct (peer_fin t) eqn:PF.
+    - rewrite Bool.andb_false_r in ED. inversion ED; subst. split; [exact E0|intros _; exact E0'].
+    - destruct (_ && _); [|inversion ED; subst; split; [exact E0|intros C; discriminate C]].
+      destruct (0 <? _); inversion ED; subst; cbn; (split; [first [reflexivity|exact E0]|intros C; discriminate C]). }
+  unfold tcb_fin. rewrite E1.
+  destruct (peer_fin t) eqn:PF.
+  - rewrite Bool.andb_false_r. cbn [fst]. split; [intros _; split; [exact E1|apply E1'; reflexivity]|discriminate].
+  - split; [discriminate|]. intros _. destruct (f_fin s) eqn:FF; cbn [andb negb].
+    + destruct (seqn s + len (payload s) =? rcv_nxt t2) eqn:EQ; cbn [fst]; proj.
+      * intros _. apply N.eqb_eq in EQ. split; [reflexivity|lia].
+      * intros C. congruence.
+    + cbn [fst]. intros C. congruence.
+Qed.
+
+Lemma on_conn_fin cap t s :
+  let t' := fst (tcb_on_conn cap t s) in
+  t_state t <> SynSent ->
+  (peer_fin t = true -> peer_fin t' = true /\ rcv_nxt t' = rcv_nxt t) /\
+  (peer_fin t = false -> peer_fin t' = true -> f_fin s = true /\ rcv_nxt t' = seqn s + len (payload s) + 1).
+Proof.
+  intros t' NS. subst t'. unfold tcb_on_conn. pose proof (on_seg_fin cap t s) as M. cbn zeta in M.
+  destruct (tcb_on_seg cap t s) as [t1 a]. cbn [fst] in M.
+  destruct (t_state t); try exact M; try congruence; cbn [fst].
+  - destruct (_ && _); [|cbn [fst]; split; [auto|intros A B; congruence]].
+    destruct (negb _); cbn [fst]; proj; (split; [auto|intros A B; congruence]).
+  - split; [auto|intros A B; congruence].
+Qed.
+
+Record FInv (ba bb : N) (c : conn) : Prop := {
+  f_ab : FinInv ba (ta c) (tb c) (wa c) SB (cwire c);
+  f_ba : FinInv bb (tb c) (ta c) (wb c) SA (cwire c) }.
+
+Lemma FInv_view ba bb c s :
+  FInv ba bb c <->
+  FinInv (base_of ba bb s) (tcb_of c s) (tcb_of c (other s)) (written c s) (other s) (cwire c) /\
+  FinInv (base_of ba bb (other s)) (tcb_of c (other s)) (tcb_of c s) (written c (other s)) s (cwire c).
+Proof. destruct s; cbn; split; intros [A B]; split; assumption. Qed.
+
+Lemma FInv_set_side ba bb c s T' W' R' extra :
+  FinInv (base_of ba bb s) T' (tcb_of c (other s)) W' (other s) (cwire c ++ extra) ->
+  FinInv (base_of ba bb (other s)) (tcb_of c (other s)) T' (written c (other s)) s (cwire c ++ extra) ->
+  FInv ba bb (set_side c s T' W' R' extra).
+Proof. intros H1 H2. apply (FInv_view ba bb _ s). destruct s; cbn in *; split; assumption. Qed.
+
+(* sender-side changes *)
+Lemma FinInv_X b X X' Y W toY wire :
+  FinInv b X Y W toY wire -> (wr_closed X = true -> wr_closed X' = true) -> FinInv b X' Y W toY wire.
+Proof.
+  intros [F1 F2] H. split.
+  - intros g Hin Ff. destruct (F1 g Hin Ff). auto.
+  - intros Al Pf. destruct (F2 Al Pf). auto.
+Qed.
+
+Lemma FinInv_W b X Y W e toY wire :
+  FinInv b X Y W toY wire -> (wr_closed X = true -> e = []) -> FinInv b X Y (W ++ e) toY wire.
+Proof.
+  intros [F1 F2] H. split.
+  - intros g Hin Ff. destruct (F1 g Hin Ff) as [A B]. rewrite (H B), app_nil_r. auto.
+  - intros Al Pf. destruct (F2 Al Pf) as [A B]. rewrite (H B), app_nil_r. auto.
+Qed.
+
+(* receiver-side changes that do not receive *)
+Lemma FinInv_Y b X Y Y' W toY wire :
+  FinInv b X Y W toY wire -> (alive Y' -> alive Y) -> peer_fin Y' = peer_fin Y -> rcv_nxt Y' = rcv_nxt Y ->
+  FinInv b X Y' W toY wire.
+Proof.
+  intros [F1 F2] A P R. split; [exact F1|]. intros Al Pf. rewrite R. apply F2; [auto|congruence].
+Qed.
+
+Lemma FinInv_dead b X Y Y' W toY wire : FinInv b X Y W toY wire -> ~ alive Y' -> FinInv b X Y' W toY wire.
+Proof. intros [F1 F2] NA. split; [exact F1|]. intros Al. contradiction. Qed.
+
+Lemma FinInv_wire_add b X Y W toY wire extra :
+  FinInv b X Y W toY wire ->
+  (forall g, In (toY, g) extra -> f_fin g = true -> seqn g + len (payload g) = b + len W /\ wr_closed X = true) ->
+  FinInv b X Y W toY (wire ++ extra).
+Proof.
+  intros [F1 F2] H. split; [|exact F2]. intros g Hin. apply in_app_or in Hin as [Hin|Hin]; auto.
+Qed.
+
+Lemma FinInv_wire_sub b X Y W toY wire wire' :
+  FinInv b X Y W toY wire -> (forall x, In x wire' -> In x wire) -> FinInv b X Y W toY wire'.
+Proof. intros [F1 F2] S. split; [|exact F2]. intros g Hin. apply F1, S, Hin. Qed.
+
+Lemma not_alive_abort tm t : ~ alive (tcb_abort tm t).
+Proof. apply dead_not_alive, dead_abort. Qed.
+
+Lemma ack_of_nofin rc l r t d d' g : In (d', g) (pkt_segs d [ack_of rc l r t]) -> f_fin g = false.
+Proof. cbn. intros [H|[]]. inversion H; reflexivity. Qed.
+Lemma mk_ack_nofin l r a b w d d' g : In (d', g) (pkt_segs d [mk_ack l r a b w]) -> f_fin g = false.
+Proof. cbn. intros [H|[]]. inversion H; reflexivity. Qed.
+
+(* FIN segments produced by seg_loop sit at fin_seq. *)
+Lemma seg_loop_fins b W fuel mss rc l X :
+  SndInv b X W -> t_state X <> Closed ->
+  forall d d' g, In (d', g) (pkt_segs d (snd (seg_loop fuel mss rc l X))) -> f_fin g = true ->
+  seqn g + len (payload g) = b + len W /\ wr_closed X = true.
+Proof.
+  revert X. induction fuel as [|f IH]; intros X S NC d d' g Hin Ff; cbn [seg_loop] in Hin; [destruct Hin|].
+  destruct (seg_step mss rc l X) as [[X' p]|] eqn:E; [|destruct Hin].
+  destruct (seg_step_snd _ _ _ _ _ _ _ _ S NC E) as (H1 & S1 & _).
+  assert (alive X) as Al.
+  { destruct (alive_dec X) as [A|A]; [exact A|]. exfalso. apply NC. apply (si_closed _ _ _ S A). }
+  assert (wr_closed X' = wr_closed X) as WC.
+  { unfold seg_step in E. destruct (_ && _); [inversion E; reflexivity|]. destruct (_ && _); [inversion E; reflexivity|discriminate]. }
+  assert (t_state X' <> Closed) as NC' by congruence.
+  specialize (IH X' H1 NC' d). destruct (seg_loop f mss rc l X') as [X'' ps]. cbn [fst snd] in *.
+  cbn in Hin. apply in_app_or in Hin as [Hin|Hin].
+  - destruct (body p) as [|g0] eqn:B; [destruct Hin|]. destruct Hin as [Hin|[]]. inversion Hin; subst g0 d'. clear Hin.
+    unfold seg_step in E. destruct (_ && _).
+    + inversion E; subst. cbn in B. inversion B; subst. discriminate Ff.
+    + destruct (fin_seq X) as [fs|] eqn:F; [|discriminate E].
+      destruct ((snd_nxt X =? fs) && _) eqn:C; [|discriminate E]. inversion E; subst. cbn in B. inversion B; subst. cbn.
+      apply andb_prop in C as [C _]. apply N.eqb_eq in C.
+      destruct (si_some _ _ _ S Al fs F) as (Q1 & Q2 & Q3). split; [lia|exact Q1].
+  - destruct (IH d' g Hin Ff) as [A B]. split; [exact A|congruence].
+Qed.
+
+Lemma cstep_finv k ba bb c e : CInv ba bb c -> FInv ba bb c -> FInv ba bb (cstep k c e).
+Proof.
+  intros CI H. destruct e; cbn [cstep].
+  - (* CWrite *)
+    apply (FInv_view ba bb c s) in H as [H1 H2].
+    destruct (wc_send (send_cap k) (tcb_of c s) bs) as [WC AC].
+    pose proof (pf_send (send_cap k) (tcb_of c s) bs) as PF.
+    destruct (ur_send (send_cap k) (tcb_of c s) bs) as [_ RN].
+    pose proof (flags_tcb_send (send_cap k) (tcb_of c s) bs) as FL.
+    destruct (tcb_send _ _ _) as [t' r]. cbn [fst snd] in *. apply FInv_set_side; rewrite app_nil_r.
+    + apply FinInv_W; [|intros WT; apply AC; congruence]. eapply FinInv_X; [exact H1|congruence].
+    + eapply FinInv_Y; [exact H2|apply (proj1 (alive_flags _ _ FL))|exact PF|exact RN].
+  - (* CRead *)
+    apply (FInv_view ba bb c s) in H as [H1 H2].
+    pose proof (wc_recv (recv_cap k) (tcb_of c s) n) as WC. pose proof (pf_recv (recv_cap k) (tcb_of c s) n) as PF.
+    destruct (ur_recv (recv_cap k) (tcb_of c s) n) as [_ RN].
+    pose proof (flags_tcb_recv (recv_cap k) (tcb_of c s) n) as FL.
+    destruct (tcb_recv _ _ _) as [[t' r] u]. cbn [fst snd] in *. apply FInv_set_side.
+    + apply FinInv_wire_add; [eapply FinInv_X; [exact H1|congruence]|].
+      intros g Hin Ff. destruct u; [|destruct Hin]. rewrite (ack_of_nofin _ _ _ _ _ _ _ Hin) in Ff. discriminate.
+    + apply FinInv_wire_add; [eapply FinInv_Y; [exact H2|apply (proj1 (alive_flags _ _ FL))|exact PF|exact RN]|].
+      intros g Hin Ff. destruct u; [|destruct Hin]. rewrite (ack_of_nofin _ _ _ _ _ _ _ Hin) in Ff. discriminate.
+  - (* CShutdown *)
+    apply (FInv_view ba bb c s) in H as [H1 H2].
+    pose proof (wc_shutdown (tcb_of c s)) as WC. pose proof (pf_shutdown (tcb_of c s)) as PF.
+    destruct (ur_shutdown (tcb_of c s)) as [_ RN]. pose proof (flags_tcb_shutdown (tcb_of c s)) as FL.
+    destruct (tcb_shutdown _) as [t' r]. cbn [fst] in *. apply FInv_set_side; rewrite app_nil_r.
+    + eapply FinInv_X; [exact H1|exact WC].
+    + eapply FinInv_Y; [exact H2|apply (proj1 (alive_flags _ _ FL))|exact PF|exact RN].
+  - (* CSegment *)
+    destruct (transmittable (tcb_of c s)) eqn:TR; [|exact H].
+    assert (t_state (tcb_of c s) <> Closed) as NC.
+    { unfold transmittable in TR. apply andb_prop in TR as [TR _]. intro E. rewrite E in TR. discriminate. }
+    apply (FInv_view ba bb c s) in H as [H1 H2].
+    apply (CInv_view ba bb c s) in CI. destruct CI as [V1 V2 V3 V4 V5 V6 V7 V8].
+    pose proof (seg_loop_fins _ _ fuel mss (recv_cap k) nowhere _ V1 NC) as FS.
+    pose proof (wc_seg_loop fuel mss (recv_cap k) nowhere (tcb_of c s)) as WC.
+    pose proof (seg_loop_snd _ _ mss (recv_cap k) nowhere fuel _ V1 NC) as S.
+    destruct (seg_loop _ _ _ _ _) as [t' ps]. cbn [fst snd] in *.
+    destruct S as (_ & _ & _ & _ & S5 & S6 & S7). apply FInv_set_side.
+    + apply FinInv_wire_add; [eapply FinInv_X; [exact H1|congruence]|].
+      intros g Hin Ff. destruct (FS _ _ _ Hin Ff) as [A B]. split; [exact A|congruence].
+    + apply FinInv_wire_add; [eapply FinInv_Y; [exact H2|apply S7|exact S6|exact S5]|].
+      intros g Hin. apply pkt_segs_dst in Hin. exfalso. exact (other_neq _ (eq_sym Hin)).
+  - (* CRetx *)
+    apply (FInv_view ba bb c s) in H as [H1 H2].
+    pose proof (wc_retx (retx_threshold k) (retx_max k) (tcb_of c s)) as WC.
+    pose proof (pf_retx (retx_threshold k) (retx_max k) (tcb_of c s)) as PF.
+    destruct (ur_retx (retx_threshold k) (retx_max k) (tcb_of c s)) as [_ RN].
+    pose proof (flags_retx (retx_threshold k) (retx_max k) (tcb_of c s)) as FL.
+    destruct (tcb_retx_tick _ _ _) as [t' a]. cbn [fst] in *. apply FInv_set_side; rewrite app_nil_r.
+    + eapply FinInv_X; [exact H1|]. destruct a; cbn; congruence.
+    + destruct a; try (eapply FinInv_Y; [exact H2|apply (proj1 (alive_flags _ _ FL))|exact PF|exact RN]).
+      eapply FinInv_dead; [exact H2|apply not_alive_abort].
+  - (* CDeliver *)
+    destruct (nth_error (cwire c) i) as [[d g]|] eqn:NE; [|exact H].
+    pose proof (nth_error_In _ _ NE) as Hin.
+    destruct (proj1 (FInv_view ba bb c d) H) as [H1 H2]. clear H.
+    destruct (f_rst g).
+    { apply FInv_set_side; rewrite app_nil_r.
+      - eapply FinInv_X; [exact H1|]. cbn. auto.
+      - eapply FinInv_dead; [exact H2|apply not_alive_abort]. }
+    assert (t_state (tcb_of c d) <> SynSent) as NS by (destruct CI as [_ _ _ _ _ _ N1 N2]; destruct d; assumption).
+    pose proof (wc_on_conn (recv_cap k) (tcb_of c d) g) as WC.
+    pose proof (on_conn_fin (recv_cap k) (tcb_of c d) g NS) as [OF1 OF2].
+    pose proof (flags_tcb_on_conn (recv_cap k) (tcb_of c d) g) as FL.
+    destruct (tcb_on_conn _ _ _) as [t' o]. cbn [fst] in *.
+    assert (FinInv (base_of ba bb (other d)) (tcb_of c (other d)) t' (written c (other d)) d (cwire c)) as G2.
+    { destruct H2 as [F1 F2]. split; [exact F1|]. intros Al Pf.
+      assert (alive (tcb_of c d)) as Al0 by (apply (alive_flags _ _ FL), Al).
+      destruct (peer_fin (tcb_of c d)) eqn:P0.
+      - destruct (OF1 eq_refl) as [_ RN]. rewrite RN. apply F2; auto.
+      - destruct (OF2 eq_refl Pf) as [Ff RN]. destruct (F1 g Hin Ff) as [A B]. split; [lia|exact B]. }
+    apply FInv_set_side.
+    + apply FinInv_wire_add; [eapply FinInv_X; [exact H1|congruence]|].
+      intros g0 Hin0 Ff. exfalso.
+      destruct o; [destruct Hin0|rewrite (ack_of_nofin _ _ _ _ _ _ _ Hin0) in Ff; discriminate
+                  |rewrite (mk_ack_nofin _ _ _ _ _ _ _ _ Hin0) in Ff; discriminate|destruct Hin0].
+    + apply FinInv_wire_add; [exact G2|].
+      intros g0 Hin0 Ff. exfalso.
+      destruct o; [destruct Hin0|rewrite (ack_of_nofin _ _ _ _ _ _ _ Hin0) in Ff; discriminate
+                  |rewrite (mk_ack_nofin _ _ _ _ _ _ _ _ Hin0) in Ff; discriminate|destruct Hin0].
+  - (* CDrop *)
+    destruct H as [A B]. split; cbn.
+    + eapply FinInv_wire_sub; [exact A|]. intros x. apply remove_nth_incl.
+    + eapply FinInv_wire_sub; [exact B|]. intros x. apply remove_nth_incl.
+  - (* CInject *)
+    destruct (is_nil (payload g) && negb (f_fin g)) eqn:C; [|exact H].
+    apply andb_prop in C as [_ C]. apply Bool.negb_true_iff in C.
+    destruct H as [A B]. split; cbn.
+    + apply FinInv_wire_add; [exact A|]. intros g' [E|[]] Ff. inversion E; subst. congruence.
+    + apply FinInv_wire_add; [exact B|]. intros g' [E|[]] Ff. inversion E; subst. congruence.
+Qed.
+
+Lemma sync_finv c : sync c -> (forall d g, In (d, g) (cwire c) -> f_fin g = false) ->
+  FInv (snd_una (ta c)) (snd_una (tb c)) c.
+Proof.
+  intros ((_ & _ & _ & _ & _ & _ & _ & PA) & (_ & _ & _ & _ & _ & _ & _ & PB) & _) NF. split; split.
+  - intros g Hin Ff. rewrite (NF _ _ Hin) in Ff. discriminate.
+  - intros _ Pf. congruence.
+  - intros g Hin Ff. rewrite (NF _ _ Hin) in Ff. discriminate.
+  - intros _ Pf. congruence.
+Qed.
+
+Lemma crun_all k ba bb es c :
+  CInv ba bb c -> FInv ba bb c -> CInv ba bb (crun k c es) /\ FInv ba bb (crun k c es).
+Proof.
+  unfold crun. revert c. induction es as [|e es IH]; intros c CI FI; cbn [fold_left]; [split; assumption|].
+  apply IH; [apply cstep_inv, CI|apply cstep_finv; assumption].
+Qed.
+
+(* EOF never truncates: once Y has seen X's FIN, Y holds or has read all of W. *)
+Lemma eof_after_all_dir b X Y W R toY wire :
+  RcvInv b Y W R -> FinInv b X Y W toY wire -> alive Y -> peer_fin Y = true -> R ++ recv_buf Y = W.
+Proof.
+  intros Rv [_ F2] AY PF. destruct (ri_buf _ _ _ _ Rv AY) as (d & D1 & D2 & D3).
+  destruct (F2 AY PF) as [E _]. rewrite PF in D1. rewrite D3. apply takeN_all. lia.
+Qed.
+
+(* What X had acknowledged, Y has received: with both sides alive, an empty
+   send buffer on X with nothing in flight means Y holds or has read ALL of
+   W; and an acknowledged FIN means Y has seen the FIN (EOF follows the data). *)
+Lemma acked_delivered_dir b X Y W R toX toY wire :
+  SndInv b X W -> RcvInv b Y W R -> AckInv X Y toX wire -> FinInv b X Y W toY wire -> alive X -> alive Y ->
+  send_buf X = [] -> snd_nxt X = snd_una X ->
+  R ++ recv_buf Y = W /\
+  (forall fs, fin_seq X = Some fs -> snd_una X = fs + 1 -> peer_fin Y = true).
+Proof.
+  intros S Rv [A _] FI AX AY SB NF.
+  destruct (peer_fin Y) eqn:PF.
+  { split; [eapply eof_after_all_dir; eassumption|auto]. }
+  destruct (ri_buf _ _ _ _ Rv AY) as (d & D1 & D2 & D3). rewrite PF in D1.
+  pose proof (si_buf _ _ _ S AX) as Hs. rewrite SB in Hs.
+  pose proof (si_base _ _ _ S) as Hb.
+  assert (len W <= snd_una X - b) as HL.
+  { assert (len (dropN (snd_una X - b) W) = 0) as Z by (rewrite <- Hs; reflexivity). rewrite len_dropN in Z. lia. }
+  split; [rewrite D3; apply takeN_all; lia|].
+  intros fs F E. destruct (si_some _ _ _ S AX fs F) as (Q1 & Q2 & Q3). lia.
+Qed.
+
+(* ------------------------------------------------------------------ *)
+(* Connection-level corollaries                                        *)
+
+Lemma sync_all c :
+  sync c -> (forall d g, In (d, g) (cwire c) -> f_ack g = false /\ f_fin g = false) ->
+  CInv (snd_una (ta c)) (snd_una (tb c)) c /\ AInv c /\ FInv (snd_una (ta c)) (snd_una (tb c)) c.
+Proof.
+  intros S H. split; [apply sync_inv, S|]. split.
+  - apply sync_ainv; [exact S|]. intros d g Hin. apply (H d g Hin).
+  - apply sync_finv; [exact S|]. intros d g Hin. apply (H d g Hin).
+Qed.
+
+Lemma crun_three k ba bb es c :
+  CInv ba bb c -> AInv c -> FInv ba bb c -> Forall no_inject es ->
+  CInv ba bb (crun k c es) /\ AInv (crun k c es) /\ FInv ba bb (crun k c es).
+Proof.
+  unfold crun. revert c. induction es as [|e es IH]; intros c CI AI FI NI; cbn [fold_left]; [auto|].
+  inversion NI; subst. apply IH; [apply cstep_inv, CI|eapply cstep_ainv; eassumption|apply cstep_finv; assumption|assumption].
+Qed.
+
+(* EOF never truncates (holds even with injected control segments). *)
+Lemma eof_after_all_lemma k c es :
+  sync c -> (forall d g, In (d, g) (cwire c) -> f_fin g = false) ->
+  let c' := crun k c es in
+  (alive (tb c') -> peer_fin (tb c') = true -> rb c' ++ recv_buf (tb c') = wa c') /\
+  (alive (ta c') -> peer_fin (ta c') = true -> ra c' ++ recv_buf (ta c') = wb c').
+Proof.
+  intros S NF. destruct (crun_all k _ _ es c (sync_inv c S) (sync_finv c S NF)) as [CI [FA FB]].
+  destruct CI as [H1 H2 H3 H4 H5 H6 H7 H8]. split; intros Al Pf.
+  - eapply eof_after_all_dir; eassumption. - eapply eof_after_all_dir; eassumption.
+Qed.
+
+(* Acknowledged => delivered, both directions, for runs without injected segments. *)
+Lemma acked_delivered_lemma k c es :
+  sync c -> cwire c = [] -> Forall no_inject es ->
+  let c' := crun k c es in
+  alive (ta c') -> alive (tb c') ->
+  (send_buf (ta c') = [] -> snd_nxt (ta c') = snd_una (ta c') ->
+     rb c' ++ recv_buf (tb c') = wa c' /\
+     (forall fs, fin_seq (ta c') = Some fs -> snd_una (ta c') = fs + 1 -> peer_fin (tb c') = true)) /\
+  (send_buf (tb c') = [] -> snd_nxt (tb c') = snd_una (tb c') ->
+     ra c' ++ recv_buf (ta c') = wb c' /\
+     (forall fs, fin_seq (tb c') = Some fs -> snd_una (tb c') = fs + 1 -> peer_fin (ta c') = true)).
+Proof.
+  intros S WE NI c' AA AB.
+  assert (forall d g, In (d, g) (cwire c) -> f_ack g = false /\ f_fin g = false) as NW by (rewrite WE; intros d g []).
+  destruct (sync_all c S NW) as (CI & AI & FI).
+  destruct (crun_three k _ _ es c CI AI FI NI) as (CI' & [A1 A2] & [F1 F2]). fold c' in CI', A1, A2, F1, F2.
+  destruct CI' as [H1 H2 H3 H4 H5 H6 H7 H8]. split; intros SB NF.
+  - eapply acked_delivered_dir; eassumption. - eapply acked_delivered_dir; eassumption.
+Qed.
+
+(* ---- progress: a sender that may send does send ---- *)
+Lemma seg_step_progress mss rc l t :
+  1 <= mss -> snd_una t <= snd_nxt t ->
+  snd_nxt t - snd_una t < len (send_buf t) -> snd_nxt t - snd_una t < snd_wnd t ->
+  exists t' p g, seg_step mss rc l t = Some (t', p) /\ body p = Tcp g /\ 1 <= len (payload g) /\ snd_nxt t < snd_nxt t'.
+Proof.
+  intros M U A B. unfold seg_step.
+  assert ((0 <? len (send_buf t) - (snd_nxt t - snd_una t)) && (0 <? snd_wnd t - (snd_nxt t - snd_una t)) = true) as C.
+  { apply andb_true_intro; split; apply N.ltb_lt; lia. }
+  rewrite C. eexists. eexists. eexists. split; [reflexivity|]. unfold mk_data. cbn [body]. split; [reflexivity|].
+  cbn [payload]. rewrite len_takeN, len_dropN. proj. split; lia.
+Qed.
+
+Lemma fin_step_progress mss rc l t fs :
+  fin_seq t = Some fs -> snd_nxt t = fs -> len (send_buf t) <= snd_nxt t - snd_una t -> snd_nxt t - snd_una t < snd_wnd t ->
+  exists t' p g, seg_step mss rc l t = Some (t', p) /\ body p = Tcp g /\ f_fin g = true.
+Proof.
+  intros F E A B. unfold seg_step.
+  assert ((0 <? len (send_buf t) - (snd_nxt t - snd_una t)) = false) as C1 by (apply N.ltb_ge; lia).
+  rewrite C1, F. cbn [andb]. rewrite (proj2 (N.eqb_eq _ _) E). cbn [andb].
+  assert ((0 <? snd_wnd t - (snd_nxt t - snd_una t)) = true) as C2 by (apply N.ltb_lt; lia). rewrite C2.
+  eexists. eexists. eexists. split; [reflexivity|]. cbn. split; reflexivity.
+Qed.
+
+(* ---- the zero-window stall (known finding L2/L3) ---- *)
+Definition idle_rx (t : tcb) : Prop := recv_buf t = [] /\ peer_fin t = false /\ readable_state (t_state t) = true.
+
+Definition zero_window_stall (c : conn) : Prop :=
+  cwire c = [] /\ alive (ta c) /\ alive (tb c) /\
+  snd_nxt (ta c) = snd_una (ta c) /\ send_buf (ta c) <> [] /\ snd_wnd (ta c) = 0 /\
+  t_state (ta c) = Established /\ fin_seq (ta c) = None /\
+  snd_nxt (tb c) = snd_una (tb c) /\ send_buf (tb c) = [] /\ fin_seq (tb c) = None /\ t_state (tb c) = Established /\
+  idle_rx (ta c) /\ idle_rx (tb c).
+
+Definition env_event (e : cev) : Prop :=
+  match e with CWrite _ _ | CShutdown _ | CInject _ _ => False | _ => True end.
+
+Lemma alive_abort_none t : alive t -> abort_error t = None.
+Proof. apply abort_error_none. Qed.
+
+Lemma seg_loop_none fuel mss rc l t : seg_step mss rc l t = None -> seg_loop fuel mss rc l t = (t, []).
+Proof. intros E. destruct fuel; cbn; [reflexivity|]. rewrite E. reflexivity. Qed.
+
+(* Nothing the network, the timers or the readers can do changes a stalled state: it is a deadlock. *)
+Lemma stall_is_stuck k c e : zero_window_stall c -> env_event e -> cstep k c e = c.
+Proof.
+  intros (W & AA & AB & NA & SA_ & WA & STA & FA & NB & SBb & FB & STB & (RA1 & RA2 & RA3) & (RB1 & RB2 & RB3)) EV.
+  destruct c as [tA tB wire wa_ wb_ ra_ rb_]. cbn in *. subst wire.
+  assert (forall t n cap, alive t -> recv_buf t = [] -> peer_fin t = false -> readable_state (t_state t) = true ->
+                          tcb_recv cap t n = (t, Pending, false)) as RCV.
+  { intros t n cap Al E1 E2 E3. unfold tcb_recv. rewrite (alive_abort_none _ Al), E1, E2, E3. reflexivity. }
+  assert (forall t th mx, t_state t = Established -> snd_nxt t = snd_una t -> tcb_retx_tick th mx t = (t, RNone)) as RTX.
+  { intros t th mx E1 E2. unfold tcb_retx_tick, retx_candidate. rewrite E1, E2, N.eqb_refl. reflexivity. }
+  destruct e; cbn [cstep env_event] in *; try contradiction.
+  - destruct s; cbn [tcb_of ta tb written readb wa wb ra rb cwire]; [rewrite (RCV tA n _ AA RA1 RA2 RA3)|rewrite (RCV tB n _ AB RB1 RB2 RB3)];
+      cbn; rewrite ?app_nil_r; reflexivity.
+  - destruct s; cbn [tcb_of ta tb written readb wa wb ra rb cwire].
+    + assert (transmittable tA = true) as TR.
+      { unfold transmittable. rewrite STA, NA, N.sub_diag. cbn.
+        destruct (send_buf tA); [contradiction|]. reflexivity. }
+      rewrite TR. rewrite seg_loop_none; [cbn; rewrite ?app_nil_r; reflexivity|].
+      unfold seg_step. rewrite NA, N.sub_diag, WA, FA. cbn. rewrite Bool.andb_false_r. reflexivity.
+    + assert (transmittable tB = false) as TR.
+      { unfold transmittable. rewrite STB, NB, N.sub_diag, SBb, FB. reflexivity. }
+      rewrite TR. reflexivity.
+  - destruct s; cbn [tcb_of ta tb written readb wa wb ra rb cwire]; [rewrite (RTX tA _ _ STA NA)|rewrite (RTX tB _ _ STB NB)]; cbn; rewrite ?app_nil_r; reflexivity.
+  - destruct i; reflexivity.
+  - destruct i; reflexivity.
+Qed.
+
+Lemma stall_forever k c es : zero_window_stall c -> Forall env_event es -> crun k c es = c.
+Proof.
+  intros S. unfold crun. induction es as [|e es IH]; intros F; cbn [fold_left]; [reflexivity|].
+  inversion F; subst. rewrite (stall_is_stuck k c e S H1). apply IH, H2.
+Qed.
+
+(* ---- retransmit counters: what can and cannot lead to TimedOut ---- *)
+Lemma ack_progress_resets t s :
+  f_ack s = true -> snd_una t < ackn s -> ackn s <= snd_nxt t ->
+  esa (tcb_ack t s) = 0 /\ retx (tcb_ack t s) = 0 /\ snd_una (tcb_ack t s) = ackn s.
+Proof.
+  intros F A B. unfold tcb_ack. rewrite F.
+  rewrite (proj2 (N.ltb_lt _ _) A), (proj2 (N.leb_le _ _) B). cbn. repeat split.
+Qed.
+
+Lemma handshake_resets cap t s o :
+  handshake_state (t_state t) = true -> snd (tcb_on_conn cap t s) = o -> o <> ONone ->
+  esa (fst (tcb_on_conn cap t s)) = 0 /\ retx (fst (tcb_on_conn cap t s)) = 0 /\
+  t_state (fst (tcb_on_conn cap t s)) = Established.
+Proof.
+  intros HS E NO. unfold tcb_on_conn in *. destruct (t_state t); try discriminate.
+  - destruct (_ && _); cbn in *; [repeat split|congruence].
+  - destruct (_ && _); cbn in *; [|congruence]. destruct (negb _); cbn in *; [congruence|repeat split].
+Qed.
+
+Lemma retx_tick_counts th mx t :
+  let r := tcb_retx_tick th mx t in
+  (snd r = RRewind \/ snd r = RResend -> retx (fst r) = retx t + 1 /\ esa (fst r) = 0 /\ retx t < mx /\ th <= esa t + 1) /\
+  (snd r = RNone -> retx (fst r) = retx t).
+Proof.
+  unfold tcb_retx_tick. destruct (retx_candidate t); [|cbn; split; [intros [H|H]; discriminate|reflexivity]].
+  destruct (esa t + 1 <? th) eqn:E1; [cbn; split; [intros [H|H]; discriminate|reflexivity]|].
+  destruct (mx <=? retx t) eqn:E2; [cbn; split; [intros [H|H]; discriminate|discriminate]|].
+  apply N.ltb_ge in E1. apply N.leb_gt in E2.
+  destruct (handshake_state _); cbn; (split; [intros _; repeat split; assumption|discriminate]).
+Qed.
+
+(* ---- link to the kernel: inbound segments go through tcb_on_conn ---- *)
+Lemma lookup_upd_exists l fd fd' g x : lookup_s l fd = Some x -> exists y, lookup_s (upd_s l fd' g) fd = Some y.
+Proof.
+  induction l as [|[f z] l IH]; cbn; [discriminate|].
+  destruct (f =? fd') eqn:E1; cbn; destruct (f =? fd) eqn:E2; eauto.
+Qed.
+
+Lemma kernel_deliver_uses_tcb_on_conn k fd l r s so t :
+  f_rst s = false -> lookup k fd = Some so -> s_tcb so = Some t ->
+  exists so', lookup (handle_on_connection k fd l r s) fd = Some so' /\
+              (snd (tcb_on_conn (recv_cap (cfg k)) t s) <> OPush ->
+               s_tcb so' = Some (fst (tcb_on_conn (recv_cap (cfg k)) t s))).
+Proof.
+  intros NR L T. unfold handle_on_connection. rewrite NR, L, T.
+  destruct (tcb_on_conn (recv_cap (cfg k)) t s) as [t' o]. cbn [fst snd].
+  assert (lookup (upd_tcb k fd t') fd = Some (set_tcb so (Some t'))) as LU.
+  { unfold lookup, upd_tcb, upd_sock, set_socks; cbn [socks].
+    exact (C16_proofs.lookup_upd_same _ _ (fun s0 => set_tcb s0 (Some t')) _ L). }
+  destruct o.
+  - exists (set_tcb so (Some t')). split; [exact LU|reflexivity].
+  - exists (set_tcb so (Some t')). split; [exact LU|reflexivity].
+  - exists (set_tcb so (Some t')). split; [exact LU|reflexivity].
+  - unfold push_to_listener. destruct (find_listener _ _) as [lfd|].
+    + unfold lookup, upd_sock, set_socks in *; cbn [socks] in *.
+      destruct (lookup_s (socks (upd_tcb k fd t')) fd) as [x|] eqn:LX; [|discriminate].
+      destruct (lookup_upd_exists _ fd lfd (fun s0 => match s_listen s0 with
+                  | Some l0 => set_listen s0 (Some (mklisten (backlog l0) (ready l0 ++ [fd]))) | None => s0 end) _ LX) as [y Hy].
+      exists y. split; [exact Hy|intros C; exfalso; apply C; reflexivity].
+    + exists (set_tcb so (Some t')). split; [exact LU|reflexivity].
+Qed.
